@@ -122,7 +122,8 @@ def run(prog: Program, res: Result, tier: str) -> None:
     if oka:
         o = fresh[0].target
         merges = nfa.calls("kernels.add_online_moments")
-        oka = len(merges) == 1 and merges[0].text() == f"kernels.add_online_moments(self._moments, other._moments, {o}._moments)" and \
+        # `moments` is the read-only property returning `_moments`
+        oka = len(merges) == 1 and merges[0].text().replace("._moments", ".moments") == f"kernels.add_online_moments(self.moments, other.moments, {o}.moments)" and \
             [e.text() for e in nfa.returns()] == [o] and nfa.before(fresh[0], merges[0]) and \
             any(e.under("not isinstance(other, ChannelStats)") for e in nfa.raises()) and \
             not [e for e in nfa.effects if e.kind == "set" and e.target.startswith(o) and e is not fresh[0]]
